@@ -17,7 +17,7 @@ mkdir -p "$SCR/src" || exit 2
 # copy the working tree (tracked + untracked, minus .git and tests)
 (cd "$REPO" && tar --exclude=.git --exclude='*_test.go' -cf - .) | (cd "$SCR/src" && tar -xf -) || exit 2
 VINSTR="$VERIF_ROOT/bin/vinstr"
-if [ ! -x "$VINSTR" ]; then (cd "$VERIF_ROOT/tools/vinstr" && GOFLAGS= go build -o "$VINSTR" .) || exit 2; fi
+if [ ! -x "$VINSTR" ] || [ "$VERIF_ROOT/tools/vinstr/main.go" -nt "$VINSTR" ]; then (cd "$VERIF_ROOT/tools/vinstr" && GOFLAGS= go build -o "$VINSTR" .) || exit 2; fi
 # harness + bridge files
 mkdir -p "$SCR/src/verif"
 cp -r "$VERIF_ROOT/mc/." "$SCR/src/verif/" || exit 2
